@@ -1196,7 +1196,7 @@ fn hang_binop_expression(
             let lhs_expression_context = if let BinOp::Caret(_) = binop {
                 ExpressionContext::BinaryLHSExponent
             } else {
-                expression_context
+                ExpressionContext::BinaryLHS
             };
 
             let side_to_hang = if is_right_associative {
